@@ -229,6 +229,207 @@ theorem runMixed_conserves (cfg : Cfg) (hrs : 0 < cfg.recvsize) : ∀ (steps : L
           simp only [handedMixed, List.append_assoc, hi, hc]
         · simp at h
 
+theorem specMixed_answer : ∀ (s₁ s₂ : List MStep), s₁.map MStep.answer = s₂.map MStep.answer →
+    ∀ S, specMixed s₁ S = specMixed s₂ S := by
+  intro s₁
+  induction s₁ with
+  | nil =>
+    intro s₂ h S
+    cases s₂ with
+    | nil => rfl
+    | cons b s₂ => simp at h
+  | cons a s₁ ih =>
+    intro s₂ h S
+    cases s₂ with
+    | nil => simp at h
+    | cons b s₂ =>
+      simp only [List.map_cons, List.cons.injEq] at h
+      obtain ⟨hab, ht⟩ := h
+      cases a with
+      | call op =>
+        cases b with
+        | call op' =>
+          simp only [MStep.answer, MStep.call.injEq] at hab
+          subst hab
+          simp only [specMixed, ih s₂ ht]
+        | recvObs n o => simp [MStep.answer] at hab
+      | recvObs n o =>
+        cases b with
+        | call op' => simp [MStep.answer] at hab
+        | recvObs n' o' =>
+          simp only [MStep.answer, MStep.recvObs.injEq, RecvObs.mk.injEq, true_and, and_true] at hab
+          have e1 : o.toRes = o'.toRes := by simp [RecvObs.toRes, hab]
+          have e2 : o.handed = o'.handed := by simp [RecvObs.handed, hab]
+          simp only [specMixed, ih s₂ ht, e1, e2]
+
+theorem resolveMixed_det (large : Nat) : ∀ (calls : List MCall) (selfMax : Nat),
+    (∀ c, MCall.call c ∈ calls → c.deterministic = true) →
+    ∀ s ∈ resolveMixed large selfMax calls, s.det = true := by
+  intro calls
+  induction calls with
+  | nil => intro _ _ s h; simp [resolveMixed] at h
+  | cons c cs ih =>
+    intro selfMax hall s hs
+    have hcs : ∀ c', MCall.call c' ∈ cs → c'.deterministic = true := fun c' h => hall c' (by simp [h])
+    cases c with
+    | call c =>
+      have hc := hall c (by simp)
+      simp only [resolveMixed] at hs
+      cases hop : c.op large selfMax with
+      | none => rw [hop] at hs; exact ih _ hcs s hs
+      | some op =>
+        rw [hop] at hs
+        simp only [List.mem_cons] at hs
+        rcases hs with h | h
+        · subst h
+          cases c <;> simp [Call.op] at hop <;> simp [Call.deterministic] at hc <;> subst hop <;> rfl
+        · exact ih _ hcs s h
+    | recvObs size obs =>
+      simp only [resolveMixed, List.mem_append, List.mem_map] at hs
+      rcases hs with ⟨o, -, h⟩ | h
+      · subst h; rfl
+      · exact ih _ hcs s h
+
+/-! ### the verified model's own recv is accepted -/
+
+theorem advance_zero (s : List Ev) : advance s 0 0 = some s := by
+  cases s with
+  | nil => simp [advance]
+  | cons e s => cases e <;> simp [advance]
+
+theorem advance_after_timeout {n : Nat} : ∀ {s r : List Ev}, sockRecv n s = .timeout r →
+    ∃ r', advance s 0 1 = some r' ∧ pending r' = pending r ∧ nTO r' = nTO r := by
+  intro s
+  induction s with
+  | nil => intro r h; simp [sockRecv] at h
+  | cons e s ih =>
+    intro r h
+    cases e with
+    | timeout =>
+      simp only [sockRecv, RecvOut.timeout.injEq] at h
+      subst h
+      exact ⟨s, by simp [advance, advance_zero], rfl, rfl⟩
+    | chunk bs =>
+      simp only [sockRecv] at h
+      split at h
+      · rename_i hb
+        subst hb
+        obtain ⟨r', h1, h2, h3⟩ := ih h
+        exact ⟨r', by simpa [advance] using h1, h2, h3⟩
+      · split at h <;> simp at h
+
+theorem advance_after_data {n : Nat} : ∀ {s r : List Ev} {d : Bytes}, sockRecv n s = .data d r →
+    ∃ r', advance s d.length 0 = some r' ∧ pending r' = pending r ∧ nTO r' = nTO r := by
+  intro s
+  induction s with
+  | nil =>
+    intro r d h
+    simp only [sockRecv, RecvOut.data.injEq] at h
+    obtain ⟨h1, h2⟩ := h
+    subst h1 h2
+    exact ⟨[], by simp [advance], rfl, rfl⟩
+  | cons e s ih =>
+    intro r d h
+    cases e with
+    | timeout => simp [sockRecv] at h
+    | chunk bs =>
+      have hfull := h
+      simp only [sockRecv] at h
+      split at h
+      · rename_i hb
+        subst hb
+        obtain ⟨r', h1, h2, h3⟩ := ih h
+        by_cases hd : d.length = 0
+        · have hdn : d = [] := List.length_eq_zero_iff.mp hd
+          obtain ⟨p1, -, -, -⟩ := sockRecv_data h
+          have p2 := sockRecv_nTO_data h
+          refine ⟨.chunk [] :: s, by simp [advance, hd], ?_, ?_⟩
+          · simp [pending, p1, hdn]
+          · simp [nTO, p2]
+        · exact ⟨r', by simpa [advance, hd] using h1, h2, h3⟩
+      · rename_i hb
+        split at h
+        · simp only [RecvOut.data.injEq] at h
+          obtain ⟨h1, h2⟩ := h
+          subst h1 h2
+          exact ⟨_, by simp [advance, hb, advance_zero], rfl, rfl⟩
+        · rename_i hl
+          simp only [RecvOut.data.injEq] at h
+          obtain ⟨h1, h2⟩ := h
+          subst h1 h2
+          by_cases hn : n = 0
+          · subst hn
+            refine ⟨.chunk bs :: s, by simp [advance], by simp [pending], by simp [nTO]⟩
+          · have hlen : (bs.take n).length = n := by simp [List.length_take]; omega
+            refine ⟨.chunk (bs.drop n) :: s, ?_, rfl, rfl⟩
+            rw [hlen]
+            have : n < bs.length := by omega
+            simp [advance, hn, this]
+
+/-- a state the model's own `recv` can end in, seen as an observation, names a point of the script -/
+theorem obs_state_of_recv (cfg : Cfg) (size : Nat) (st : St) :
+    ∃ st', (obsOfRecv (recv cfg size st)).state st = some st' ∧ st'.rbuf = (recv cfg size st).2.rbuf ∧
+      pending st'.script = pending (recv cfg size st).2.script ∧
+      nTO st'.script = nTO (recv cfg size st).2.script := by
+  have key : ∀ (res : Res) (rb : Bytes) (s' : List Ev),
+      (∃ c : Bytes, pending st.script = c ++ pending s' ∧ ∃ k, nTO s' + k = nTO st.script ∧
+        ∃ r', advance st.script c.length k = some r' ∧ pending r' = pending s' ∧ nTO r' = nTO s') →
+      ∃ st', (obsOfRecv (res, ⟨rb, s'⟩)).state st = some st' ∧ st'.rbuf = rb ∧
+        pending st'.script = pending s' ∧ nTO st'.script = nTO s' := by
+    intro res rb s' ⟨c, hc, k, hk, r', hr, hp, hn⟩
+    refine ⟨⟨rb, r'⟩, ?_, rfl, hp, hn⟩
+    unfold RecvObs.state obsOfRecv
+    have hl := congrArg List.length hc
+    simp only [List.length_append] at hl
+    have c1 : (pending s').length ≤ (pending st.script).length ∧ nTO s' ≤ nTO st.script := ⟨by omega, by omega⟩
+    have e1 : (pending st.script).length - (pending s').length = c.length := by omega
+    have e2 : nTO st.script - nTO s' = k := by omega
+    simp only [c1, and_self, ↓reduceIte, e1, e2, hr]
+  have same : ∀ (res : Res) (rb : Bytes), ∃ st', (obsOfRecv (res, ⟨rb, st.script⟩)).state st = some st' ∧
+      st'.rbuf = rb ∧ pending st'.script = pending st.script ∧ nTO st'.script = nTO st.script :=
+    fun res rb => key res rb st.script ⟨[], by simp, 0, by simp, st.script, advance_zero _, rfl, rfl⟩
+  unfold recv
+  split
+  · exact same _ _
+  · split
+    · exact same _ _
+    · cases hr : sockRecv cfg.recvsize st.script with
+      | timeout r =>
+        obtain ⟨r', a1, a2, a3⟩ := advance_after_timeout hr
+        obtain ⟨p1, -⟩ := sockRecv_timeout hr
+        have p2 := sockRecv_nTO_timeout hr
+        exact key _ _ r ⟨[], by simp [p1], 1, p2, r', a1, a2, a3⟩
+      | data d r =>
+        obtain ⟨r', a1, a2, a3⟩ := advance_after_data hr
+        obtain ⟨p1, -, -, -⟩ := sockRecv_data hr
+        have p2 := sockRecv_nTO_data hr
+        simp only
+        split
+        · exact key _ _ r ⟨d, p1, 0, by omega, r', a1, a2, a3⟩
+        · exact key _ _ r ⟨d, p1, 0, by omega, r', a1, a2, a3⟩
+
+theorem recv_accepted (cfg : Cfg) (size : Nat) (st : St) (hrs : 0 < cfg.recvsize) :
+    ∃ st', acceptRecv size (obsOfRecv (recv cfg size st)) st = some st' ∧
+      st'.rbuf = (recv cfg size st).2.rbuf ∧ st'.view = (recv cfg size st).2.view ∧
+      nTO st'.script = nTO (recv cfg size st).2.script := by
+  obtain ⟨st', h1, h2, h3, h4⟩ := obs_state_of_recv cfg size st
+  have hv : st'.view = (recv cfg size st).2.view := by simp [St.view, h2, h3]
+  refine ⟨st', ?_, h2, hv, h4⟩
+  unfold acceptRecv
+  rw [h1]
+  simp only
+  obtain ⟨t1, t2⟩ := recv_nTOex cfg size st
+  rcases recv_ok cfg hrs size st with ⟨a, b, -⟩ | ⟨v, a, b, c, d, -⟩
+  · have hres : (obsOfRecv (recv cfg size st)).res = none := by simp [obsOfRecv, a]
+    rw [hres]
+    have := t1 a
+    simp only [hv, b, h4, and_true]
+    rw [if_pos (by omega)]
+  · have hres : (obsOfRecv (recv cfg size st)).res = some v := by simp [obsOfRecv, a]
+    rw [hres]
+    simp only [hv, b, true_and]
+    rw [if_pos ⟨c, d⟩]
+
 /-! ### the observed recv on the one object -/
 
 theorem daccRecv_ok (size : Nat) (o : RecvObs) (cls : Fault) (b b' : BSock) (out : DOut)
